@@ -9,6 +9,9 @@ CHECKS = {
  "C18": dict(cat="model_checking", tech="TLA+ module Canon.tla: declarative CanonSpec/SaneSpec, transcription CanonImpl, theorems checked by TLC over all strings up to a length; table of the real functions over the same domain validated by TLC (TraceCanon.tla)",
    text="TLC checks on every string over {'/', '.', ordinary, high byte} up to length 7 (quick) / 9 (thorough) that the transcription of the C loops equals the declarative meaning and that the result is clean, never longer, idempotent and names the same entry, failing exactly on a '..' component. The real canonicalize_name and is_filename_sane (compiled from the working tree with ASan, exact-size heap buffers) are then run on every string up to length 8 / 10 plus seeded random long strings, and TLC validates every recorded (input, return code, output, sane) record against the specification. Exhaustive within the bound on both sides.",
    note="Trusts TLC and the JSON recorder; the 4-class alphabet stands for all non-NUL bytes (the code branches only on '/', '.', NUL); random strings use other bytes.", ref="4 C18"),
+ "C10": dict(cat="model_checking", tech="TLA+ models MetaReader.tla / DataReader.tla (cache state machines vs. pure reference function) exhaustively checked by TLC over all short histories; every TLC history replayed on the real readers over a concrete image shaped like the abstract one, results compared with the model's prediction and with freshly created readers; seeded random histories over all reader APIs on valid and damaged images",
+   text="TLC enumerates all histories of up to 3 (quick) / 4 (thorough) metadata queries (seek+read over a 4-block table with a full, an undecompressable, a header-corrupt and a short block) and all data-block/fragment cache histories, checking that every answer equals the pure reference function and that the cache tag is coherent; deviations (tag set after load = the pinned tree, location-only cache key = the pinned tree, offset unchecked, next pointer stale, cache kept on error) must each give a counterexample. An edge cover of the state graph is executed on the real libsquashfs readers over concrete images (gensquashfs output with a corrupted block / header; an adversarial twin image from the independent encoder); status and payload (crc) of each call are compared with the model's prediction and with the same call on fresh readers. Random 120-call histories over meta, dir, path, data (positional, block, fragment, stream), xattr and id APIs on valid and bit-flipped images are compared differentially.",
+   note="Trusts the independent decoder/encoder for the concrete images and the fresh-reader oracle; histories mixing different images on one reader are not modelled; dir reader created with flags 0.", ref="4 C10"),
 }
 NOT_YET = {}
 def main():
